@@ -101,6 +101,9 @@ func viaGoGen(src, dst, work string) {
 	rewriter.GoGen(work)
 	for _, name := range derived {
 		bs, err := os.ReadFile(filepath.Join(work, name))
+		if os.IsNotExist(err) {
+			panic("GOGEN-NO-OUTPUT: GoGen returned normally but did not derive " + name + " from " + strings.TrimSuffix(name, ".go") + "_co.go")
+		}
 		must(err)
 		must(os.WriteFile(filepath.Join(dst, name), bs, 0o644))
 	}
